@@ -28,6 +28,7 @@ type Obligation struct {
 	Cand    int // unused
 	CandKey string // candidate invariant key (Houdini) or ""
 	Extra   []*Term
+	NIMap   map[*Term]*Term // non-interference: substitution giving the second run's terms
 	Expr    string // Go text of the contract clause, for replay
 }
 
@@ -62,6 +63,9 @@ type Encoder struct {
 	topFrame    *frame
 	closedWorld map[string]bool
 	symMemo     map[*Term]map[*Term]bool
+	niTerms     []*Term
+	loopRefSyms []*Term
+	specPure    int
 	cbc         map[*Term]*cbcGhost
 	randDraws   int
 	initMode    bool
@@ -98,6 +102,10 @@ func (e *Encoder) assumeFact(t *Term) {
 
 // assume under the current path condition
 func (e *Encoder) assume(t *Term) {
+	if e.specPure > 0 {
+		// inside a spec function evaluated from a contract: nothing was checked, so nothing may be assumed
+		return
+	}
 	e.assumeFact(e.c.Implies(e.guard, t))
 }
 
@@ -156,6 +164,11 @@ func (e *Encoder) newAlloc() *Term {
 	}
 	r := e.c.Root(e.c.IntAdd(e.A0, e.c.Int(int64(e.allocN))))
 	e.allocN++
+	// allocation sites inside a loop are reused by every iteration in this encoding; a new
+	// object is nevertheless distinct from every reference carried into the iteration
+	for _, s := range e.loopRefSyms {
+		e.assumeFact(e.c.Not(e.c.Eq(r, s)))
+	}
 	return r
 }
 
@@ -690,6 +703,9 @@ func (e *Encoder) instr(fr *frame, b *ssa.BasicBlock, in ssa.Instruction) {
 		// path ends
 	case *ssa.If:
 		cond := e.val(fr, x.Cond).T
+		if e.pure == 0 {
+			e.niTerms = append(e.niTerms, cond)
+		}
 		fr.edge[[2]int{b.Index, b.Succs[0].Index}] = c.And(e.guard, cond)
 		fr.edge[[2]int{b.Index, b.Succs[1].Index}] = c.And(e.guard, c.Not(cond))
 	case *ssa.Jump:
@@ -1151,13 +1167,34 @@ func (e *Encoder) convert(fr *frame, x *ssa.Convert) *SVal {
 		mem := e.get(e.cur, "mem:bv8", Arr(RefS, Arr(BV64, BV8)))
 		e.set(e.cur, "mem:bv8", c.Store(mem, ref, c.Select(mem, v.Base)))
 		return &SVal{K: KSlice, Typ: to, Base: ref, Off: v.Off, Len: v.Len, Cap: v.Len}
-	case kindOf(from) == KSlice && kindOf(to) == KString:
+	case kindOf(from) == KSlice && kindOf(to) == KString && elemClass(from.Underlying().(*types.Slice).Elem()) == "mem:bv8":
 		ref := e.newAlloc()
 		mem := e.get(e.cur, "mem:bv8", Arr(RefS, Arr(BV64, BV8)))
 		e.set(e.cur, "mem:bv8", c.Store(mem, ref, c.Select(mem, v.Base)))
 		return &SVal{K: KString, Typ: to, Base: ref, Off: v.Off, Len: v.Len}
 	case kindOf(from) == KPtr && kindOf(to) == KPtr, kindOf(from) == KString && kindOf(to) == KString:
 		return e.changeType(v, to)
+	case kindOf(from) == KSlice && kindOf(to) == KString && elemClass(from.Underlying().(*types.Slice).Elem()) == "mem:bv32":
+		// string([]rune): UTF-8 encoding. Modelled exactly for ASCII contents (one byte per rune);
+		// otherwise only the length bound is known.
+		ref := e.newAlloc()
+		L := c.Fresh("runestr.len", BV64)
+		A := c.Fresh("runestr", Arr(BV64, BV8))
+		rmem := e.get(e.cur, "mem:bv32", Arr(RefS, Arr(BV64, BV(32))))
+		ra := c.Select(rmem, v.Base)
+		k := c.Bound("k", BV64)
+		inr := c.BVCmp("bvult", k, v.Len)
+		rk := c.Select(ra, c.BVBin("bvadd", v.Off, k))
+		allASCII := c.Forall([]*Term{k}, c.Implies(inr, c.BVCmp("bvult", rk, c.BVLit(0x80, 32))))
+		k2 := c.Bound("k", BV64)
+		rk2 := c.Select(ra, c.BVBin("bvadd", v.Off, k2))
+		same := c.Forall([]*Term{k2}, c.Implies(c.BVCmp("bvult", k2, v.Len), c.Eq(c.Select(A, k2), c.Extract(7, 0, rk2))))
+		e.assumeFact(c.Implies(allASCII, c.And(c.Eq(L, v.Len), same)))
+		e.assumeFact(c.BVCmp("bvule", L, c.BVBin("bvmul", v.Len, c.BVLit(4, 64))))
+		mem := e.get(e.cur, "mem:bv8", Arr(RefS, Arr(BV64, BV8)))
+		e.set(e.cur, "mem:bv8", c.Store(mem, ref, A))
+		e.trusted["string([]rune) is the identity on ASCII code points (UTF-8)"] = true
+		return &SVal{K: KString, Typ: to, Base: ref, Off: c.BVLit(0, 64), Len: L}
 	}
 	e.subsetWarn("unsupported conversion " + from.String() + " -> " + to.String())
 	return e.freshVal("conv", to)
